@@ -266,32 +266,23 @@ theorem scale_local (h : Heap) (o : Obj) (c : Rat) : Local h o (scale h o c).1 (
 
 /-- allocate a copy/derivative of an optional array -/
 theorem optAlloc_spec (h : Heap) (x : Option Nat) (f : Nat → Val) :
-    let r : Heap × Option Nat := match x with
-      | some a => let (h1, b) := h.alloc (f a); (h1, some b)
-      | none => (h, none)
-    Ext h r.1 ∧ r.1.next ≤ h.next + 1 ∧ ∀ b, r.2 = some b → (h.next ≤ b ∧ b < r.1.next) := by
+    Ext h (optAlloc h x f).1 ∧ ∀ b, (optAlloc h x f).2 = some b → (h.next ≤ b ∧ b < (optAlloc h x f).1.next) := by
   cases x with
-  | none => exact ⟨Ext.refl h, by simp, fun b hb => by simp at hb⟩
+  | none => exact ⟨Ext.refl h, fun b hb => by simp [optAlloc] at hb⟩
   | some a =>
-      refine ⟨alloc_ext h _, by simp, fun b hb => ?_⟩
-      simp only [alloc_addr, Option.some.injEq] at hb
+      refine ⟨alloc_ext h _, fun b hb => ?_⟩
+      simp only [optAlloc, alloc_addr, Option.some.injEq] at hb
       subst hb
-      simp
+      simp [optAlloc]
 
 theorem reduce_local (h : Heap) (o : Obj) (ids : List Nat) : Local h o (reduce h o ids).1 (reduce h o ids).2 := by
-  unfold reduce
-  obtain ⟨e1, n1, m1⟩ := optAlloc_spec h o.pos? (fun a => .vecs (reduceIds (h.vecs a) ids))
-  generalize (match o.pos? with
-      | some a => let (h1, b) := h.alloc (Val.vecs (reduceIds (h.vecs a) ids)); (h1, some b)
-      | none => (h, none) : Heap × Option Nat) = r1 at e1 n1 m1
-  obtain ⟨e2, n2, m2⟩ := optAlloc_spec r1.1 o.quat? (fun a => .rots (reduceIds (h.rots a) ids))
-  generalize (match o.quat? with
-      | some a => let (h2, b) := r1.1.alloc (Val.rots (reduceIds (h.rots a) ids)); (h2, some b)
-      | none => (r1.1, none) : Heap × Option Nat) = r2 at e2 n2 m2
-  obtain ⟨e3, n3, m3⟩ := optAlloc_spec r2.1 o.stamps? (fun a => .rats (reduceIds (h.rats a) ids))
-  generalize (match o.stamps? with
-      | some a => let (h3, b) := r2.1.alloc (Val.rats (reduceIds (h.rats a) ids)); (h3, some b)
-      | none => (r2.1, none) : Heap × Option Nat) = r3 at e3 n3 m3
+  simp only [reduce]
+  obtain ⟨e1, m1⟩ := optAlloc_spec h o.pos? (fun a => .vecs (reduceIds (h.vecs a) ids))
+  generalize optAlloc h o.pos? (fun a => .vecs (reduceIds (h.vecs a) ids)) = r1 at e1 m1
+  obtain ⟨e2, m2⟩ := optAlloc_spec r1.1 o.quat? (fun a => .rots (reduceIds (h.rots a) ids))
+  generalize optAlloc r1.1 o.quat? (fun a => .rots (reduceIds (h.rots a) ids)) = r2 at e2 m2
+  obtain ⟨e3, m3⟩ := optAlloc_spec r2.1 o.stamps? (fun a => .rats (reduceIds (h.rats a) ids))
+  generalize optAlloc r2.1 o.stamps? (fun a => .rats (reduceIds (h.rats a) ids)) = r3 at e3 m3
   apply Local.ofExt (e1.trans (e2.trans e3))
   intro a ha
   simp only [mem_reach] at ha
@@ -382,13 +373,17 @@ theorem copyCell_spec (h : Heap) (x : Option Nat) :
 /-- `copy.deepcopy`: the heap only grows and every array of the copy is new -/
 theorem deepcopy_spec (h : Heap) (o : Obj) :
     Ext h (deepcopy h o).1 ∧ ∀ a ∈ (deepcopy h o).2.reach, h.next ≤ a ∧ a < (deepcopy h o).1.next := by
-  unfold deepcopy
+  simp only [deepcopy]
   obtain ⟨e1, m1⟩ := copyCell_spec h o.pos?
-  obtain ⟨e2, m2⟩ := copyCell_spec (copyCell h o.pos?).1 o.quat?
-  obtain ⟨e3, m3⟩ := copyCell_spec (copyCell (copyCell h o.pos?).1 o.quat?).1 o.stamps?
+  generalize copyCell h o.pos? = r1 at e1 m1
+  obtain ⟨e2, m2⟩ := copyCell_spec r1.1 o.quat?
+  generalize copyCell r1.1 o.quat? = r2 at e2 m2
+  obtain ⟨e3, m3⟩ := copyCell_spec r2.1 o.stamps?
+  generalize copyCell r2.1 o.stamps? = r3 at e3 m3
   have := e1.mono; have := e2.mono; have := e3.mono
   cases hs : o.se3? with
   | none =>
+      dsimp only
       refine ⟨e1.trans (e2.trans e3), ?_⟩
       intro a ha
       simp only [mem_reach] at ha
@@ -398,8 +393,9 @@ theorem deepcopy_spec (h : Heap) (o : Obj) :
       · have := m3 a ha; omega
       · simp at hl
   | some as =>
-      obtain ⟨e4, _, _, m4⟩ := allocList_spec (copyCell (copyCell (copyCell h o.pos?).1 o.quat?).1 o.stamps?).1 (as.map h.get)
+      obtain ⟨e4, _, _, m4⟩ := allocList_spec r3.1 (as.map h.get)
       have := e4.mono
+      dsimp only
       refine ⟨e1.trans (e2.trans (e3.trans e4)), ?_⟩
       intro a ha
       simp only [mem_reach] at ha
@@ -415,5 +411,133 @@ theorem FreshSince.sep {h : Heap} {o b : Obj} (f : FreshSince h o) (wb : Wf h b)
   constructor
   · intro x hx hb; have := f x hx; have := wb x hb; omega
   · intro x hb hx; have := f x hx; have := wb x hb; omega
+
+theorem Ext.wf {h h' : Heap} (e : Ext h h') {b : Obj} (wb : Wf h b) : Wf h' b :=
+  fun a ha => Nat.lt_of_lt_of_le (wb a ha) e.mono
+
+/-- a step that only allocates leaves the view of every existing object unchanged -/
+theorem Ext.view {h h' : Heap} (e : Ext h h') {b : Obj} (wb : Wf h b) : view h' b = view h b := by
+  unfold Heap.view
+  congr 1
+  exact List.map_congr_left (fun a ha => e.same a (wb a ha))
+
+theorem forceSe3_ext (h : Heap) (o : Obj) : Ext h (forceSe3 h o).1 := by
+  unfold forceSe3
+  cases o.se3? with
+  | some l => exact Ext.refl h
+  | none => exact (allocList_spec h _).1
+
+theorem forcePos_ext (h : Heap) (o : Obj) : Ext h (forcePos h o).1 := by
+  unfold forcePos
+  cases o.pos? with
+  | some l => exact Ext.refl h
+  | none => exact alloc_ext h _
+
+theorem forceQuat_ext (h : Heap) (o : Obj) : Ext h (forceQuat h o).1 := by
+  unfold forceQuat
+  cases o.quat? with
+  | some l => exact Ext.refl h
+  | none => exact alloc_ext h _
+
+theorem reduce_ext (h : Heap) (o : Obj) (ids : List Nat) : Ext h (reduce h o ids).1 := by
+  simp only [reduce]
+  exact (optAlloc_spec h _ _).1.trans ((optAlloc_spec _ _ _).1.trans (optAlloc_spec _ _ _).1)
+
+theorem FreshSince.mono {h h1 : Heap} {o : Obj} (f : FreshSince h1 o) (e : h.next ≤ h1.next) : FreshSince h o :=
+  fun a ha => Nat.le_trans e (f a ha)
+
+/-- an output of `associate_trajectories` consists of new arrays only -/
+theorem associateOne_spec (h : Heap) (o : Obj) (ids : List Nat) :
+    Ext h (associateOne h o ids).1 ∧ FreshSince h (associateOne h o ids).2 := by
+  unfold associateOne
+  obtain ⟨e, m⟩ := deepcopy_spec h o
+  refine ⟨e.trans (reduce_ext _ _ _), ?_⟩
+  intro a ha
+  rcases (reduce_local _ _ ids).reach a ha with h1 | h1
+  · exact (m a h1).1
+  · exact Nat.le_trans e.mono h1.1
+
+theorem forceAll_ext (h : Heap) (os : List Obj) : Ext h (forceAll h os).1 := by
+  induction os generalizing h with
+  | nil => exact Ext.refl h
+  | cons o r ih =>
+      simp only [forceAll]
+      exact (forcePos_ext h o).trans ((forceQuat_ext _ _).trans (ih _))
+
+/-- `trajectory.merge` only allocates; the merged trajectory consists of new arrays only -/
+theorem merge_spec (h : Heap) (os : List Obj) :
+    Ext h (merge h os).1 ∧ FreshSince h (merge h os).2.2 := by
+  simp only [merge]
+  have e1 := forceAll_ext h os
+  generalize forceAll h os = r1 at e1
+  have e2 : Ext r1.1 (r1.1.alloc (.vecs (r1.2.flatMap (posVals r1.1)))).1 := alloc_ext _ _
+  generalize hr2 : r1.1.alloc (.vecs (r1.2.flatMap (posVals r1.1))) = r2 at e2
+  have a2 : r2.2 = r1.1.next := by rw [← hr2]; rfl
+  have e3 : Ext r2.1 (r2.1.alloc (.rots (r1.2.flatMap (quatVals r1.1)))).1 := alloc_ext _ _
+  generalize hr3 : r2.1.alloc (.rots (r1.2.flatMap (quatVals r1.1))) = r3 at e3
+  have a3 : r3.2 = r2.1.next := by rw [← hr3]; rfl
+  have e4 : Ext r3.1 (r3.1.alloc (.rats (r1.2.flatMap (fun o => (o.stamps?.map r1.1.rats).getD [])))).1 := alloc_ext _ _
+  generalize hr4 : r3.1.alloc (.rats (r1.2.flatMap (fun o => (o.stamps?.map r1.1.rats).getD []))) = r4 at e4
+  have a4 : r4.2 = r3.1.next := by rw [← hr4]; rfl
+  refine ⟨e1.trans (e2.trans (e3.trans e4)), ?_⟩
+  intro a ha
+  simp only [mem_reach] at ha
+  have := e1.mono; have := e2.mono; have := e3.mono
+  rcases ha with ha | ha | ha | ⟨l, hl, _⟩
+  · simp only [Option.some.injEq] at ha; omega
+  · simp only [Option.some.injEq] at ha; omega
+  · simp only [Option.some.injEq] at ha; omega
+  · simp at hl
+
+theorem partsNew_spec (h : Heap) (ms : List (List Nat)) (ss : List (List Rat)) :
+    Ext h (partsNew h ms ss).1 ∧ ∀ p ∈ (partsNew h ms ss).2, FreshSince h p := by
+  induction ms generalizing h ss with
+  | nil => exact ⟨by simp [partsNew]; exact Ext.refl h, fun p hp => by simp [partsNew] at hp⟩
+  | cons m mr ih =>
+      cases ss with
+      | nil => exact ⟨by simp [partsNew]; exact Ext.refl h, fun p hp => by simp [partsNew] at hp⟩
+      | cons s sr =>
+          simp only [partsNew]
+          obtain ⟨e1, _, _, m1⟩ := allocList_spec h (m.map h.get)
+          have e2 : Ext (h.allocList (m.map h.get)).1 ((h.allocList (m.map h.get)).1.alloc (.rats s)).1 := alloc_ext _ _
+          obtain ⟨e3, f3⟩ := ih ((h.allocList (m.map h.get)).1.alloc (.rats s)).1 sr
+          refine ⟨e1.trans (e2.trans e3), ?_⟩
+          intro p hp
+          simp only [List.mem_cons] at hp
+          rcases hp with rfl | hp
+          · intro a ha
+            simp only [mem_reach] at ha
+            rcases ha with ha | ha | ha | ⟨l, hl, hal⟩
+            · simp at ha
+            · simp at ha
+            · simp only [alloc_addr, Option.some.injEq] at ha; subst ha; exact e1.mono
+            · simp only [Option.some.injEq] at hl; subst hl; exact (m1 a hal).1
+          · exact (f3 p hp).mono (e1.trans e2).mono
+
+/-- the repaired splitters: only allocation; every part consists of new arrays only; the parent
+may at most have its matrix cache filled -/
+theorem splitNew_spec (h : Heap) (o : Obj) (cut : Bool) (bounds : List Nat) :
+    Ext h (splitNew h o cut bounds).1 ∧
+    (∀ p ∈ (splitNew h o cut bounds).2.2, FreshSince h p) ∧
+    Local h o (splitNew h o cut bounds).1 (splitNew h o cut bounds).2.1 := by
+  unfold splitNew
+  cases cut with
+  | true =>
+      simp only [if_true]
+      have e1 := forceSe3_ext h o
+      have l1 := forceSe3_local h o
+      generalize forceSe3 h o = r1 at e1 l1
+      obtain ⟨e2, f2⟩ := partsNew_spec r1.1 (segments (r1.2.se3?.getD []) bounds)
+        (segments ((r1.2.stamps?.map r1.1.rats).getD []) bounds)
+      refine ⟨e1.trans e2, fun p hp => (f2 p hp).mono e1.mono, ?_⟩
+      exact l1.trans (Local.ofExt e2 (fun a ha => Or.inl ha))
+  | false =>
+      simp only [Bool.false_eq_true, if_false]
+      obtain ⟨e, m⟩ := deepcopy_spec h o
+      refine ⟨e, ?_, Local.ofExt e (fun a ha => Or.inl ha)⟩
+      intro p hp
+      simp only [List.mem_singleton] at hp
+      subst hp
+      exact fun a ha => (m a ha).1
 
 end Evo.Heap
